@@ -14,6 +14,7 @@
 #include <fcntl.h>
 #include <map>
 #include <mutex>
+#include <stdexcept>
 #include <string>
 #include <thread>
 #include <unistd.h>
@@ -55,6 +56,17 @@ public:
 private:
   FILE* _f{nullptr};
   uint32_t _us;
+};
+
+// a sink (think of a network or database sink whose peer went away) that throws from every flush
+class BadFlushSink : public quill::Sink
+{
+public:
+  void write_log(quill::MacroMetadata const*, uint64_t, std::string_view, std::string_view, std::string const&, std::string_view, quill::LogLevel,
+                 std::string_view, std::string_view, std::vector<std::pair<std::string, std::string>> const*, std::string_view, std::string_view) override
+  {
+  }
+  void flush_sink() override { throw std::runtime_error{"scripted flush failure"}; }
 };
 
 std::map<std::string, std::string> parse(int argc, char** argv)
@@ -131,6 +143,14 @@ int main(int argc, char** argv)
   };
   start_backend();
   quill::Logger* vlog = make_file_logger("victim", g_dir + "/victim.log", clk);
+
+  // --badflush: a logger that sorts before every other one, over a sink whose flush always throws
+  if (a["badflush"] == "1")
+  {
+    auto bs = quill::Frontend::create_or_get_sink<BadFlushSink>("badflush_sink");
+    quill::Logger* bl = quill::Frontend::create_or_get_logger("a_badflush", bs, quill::PatternFormatterOptions{"%(message)"}, clk);
+    LOG_INFO(bl, "B|0");
+  }
 
   // backend load: a backlog on a slow sink
   quill::Logger* slow = nullptr;
